@@ -7,16 +7,20 @@ package store
 // were uploaded; observed: BucketStore.Series under several configurations and cache histories.
 
 import (
+	"bytes"
 	"context"
+	"encoding/json"
 	"fmt"
 	"math"
 	"math/rand"
 	"os"
+	"path"
 	"path/filepath"
 	"sort"
 	"strings"
 	"testing"
 
+	"github.com/go-kit/log"
 	"github.com/prometheus/client_golang/prometheus/testutil"
 	"github.com/prometheus/common/promslog"
 	"github.com/prometheus/prometheus/model/labels"
@@ -24,6 +28,8 @@ import (
 	"github.com/prometheus/prometheus/tsdb"
 	"github.com/prometheus/prometheus/tsdb/chunkenc"
 
+	"github.com/thanos-io/thanos/pkg/block"
+	"github.com/thanos-io/thanos/pkg/block/metadata"
 	"github.com/thanos-io/thanos/pkg/store/storepb"
 	"github.com/thanos-io/thanos/pkg/verifhook/vfkit"
 )
@@ -287,6 +293,89 @@ func vfc10Tune(rng *rand.Rand, st *BucketStore) string {
 	return fmt.Sprintf("lazy=%s ratio=%v keys=%v batch=%d", lazy, st.seriesMatchRatio, st.postingGroupMaxKeySeriesRatio, st.seriesBatchSize)
 }
 
+// vfc10Mutate is one step of a fixture history: 1..2 blocks (oldest / middle / newest, drawn by
+// position in time order) disappear from the bucket - deleted outright or marked for deletion
+// (the stores' meta fetchers ignore marked blocks, delay 0) -, sometimes a new block is appended
+// after the youngest one, then every store runs SyncBlocks. refs is updated to the blocks that
+// are now present; the reference of later requests is read from exactly those.
+func vfc10Mutate(t *testing.T, rng *rand.Rand, fx *vfc07Fixture, refs []vfc10RefBlock, stores []*BucketStore, allowAdd bool, step int) ([]vfc10RefBlock, string) {
+	ctx := context.Background()
+	sort.Slice(refs, func(i, j int) bool { return refs[i].b.meta.MinTime < refs[j].b.meta.MinTime })
+	var what []string
+	for k := 0; k < 1+rng.Intn(2) && len(refs) > 2; k++ {
+		var i int
+		pos := []string{"oldest", "middle", "newest"}[rng.Intn(3)]
+		switch pos {
+		case "oldest":
+			i = 0
+		case "newest":
+			i = len(refs) - 1
+		default:
+			i = 1 + rng.Intn(len(refs)-2)
+		}
+		id := refs[i].b.id
+		if rng.Intn(3) == 0 {
+			mark, err := json.Marshal(metadata.DeletionMark{ID: id, Version: metadata.DeletionMarkVersion1, Details: "vf history", DeletionTime: 1})
+			if err != nil {
+				vfc07Setup("deletion mark: %v", err)
+			}
+			if err := fx.bkt.Upload(ctx, path.Join(id.String(), metadata.DeletionMarkFilename), bytes.NewReader(mark)); err != nil {
+				vfc07Setup("upload deletion mark: %v", err)
+			}
+			what = append(what, "mark-"+pos)
+		} else {
+			if err := block.Delete(ctx, log.NewNopLogger(), fx.bkt, id); err != nil {
+				vfc07Setup("delete block: %v", err)
+			}
+			what = append(what, "delete-"+pos)
+		}
+		_ = refs[i].blk.Close()
+		refs = append(refs[:i:i], refs[i+1:]...)
+	}
+	if allowAdd && rng.Intn(3) == 0 {
+		last := refs[len(refs)-1].b
+		width := last.maxt - last.mint
+		sp := vfc07BlockSpec{ext: last.ext, chunkRange: last.chunkRange, mint: last.maxt, maxt: last.maxt + width}
+		for _, se := range last.series {
+			if rng.Intn(3) != 0 {
+				sp.series = append(sp.series, vfc07SeriesSpec{id: se.id, lset: se.lset, ts: vfc07GenTimes(rng, sp.mint, int(width/vfc07Step))})
+			}
+		}
+		if len(sp.series) == 0 {
+			se := last.series[0]
+			sp.series = append(sp.series, vfc07SeriesSpec{id: se.id, lset: se.lset, ts: vfc07GenTimes(rng, sp.mint, int(width/vfc07Step))})
+		}
+		nb := vfc07WriteBlock(t, fx.blocksDir, filepath.Join(fx.dir, fmt.Sprintf("head-add%d", step)), sp)
+		if err := block.Upload(ctx, log.NewNopLogger(), fx.bkt, nb.dir, metadata.NoneFunc); err != nil {
+			vfc07Setup("upload added block: %v", err)
+		}
+		blk, err := tsdb.OpenBlock(promslog.NewNopLogger(), nb.dir, nil, nil)
+		if err != nil {
+			vfc07Setup("open added reference block: %v", err)
+		}
+		refs = append(refs, vfc10RefBlock{b: nb, blk: blk})
+		if nb.meta.MaxTime-1 > fx.tmax {
+			fx.tmax = nb.meta.MaxTime - 1
+		}
+		fx.edges = append(fx.edges, nb.meta.MinTime, nb.meta.MaxTime)
+		what = append(what, "add-youngest")
+	}
+	for _, st := range stores {
+		if err := st.SyncBlocks(ctx); err != nil {
+			vfc07Setup("SyncBlocks after %v: %v", what, err)
+		}
+	}
+	return refs, strings.Join(what, "+")
+}
+
+func vfc10DescribeRefs(refs []vfc10RefBlock) []map[string]any {
+	var out []map[string]any
+	for _, rb := range refs {
+		out = append(out, map[string]any{"ulid": rb.b.id.String(), "ext": rb.b.ext.String(), "mint": rb.b.meta.MinTime, "maxt": rb.b.meta.MaxTime, "series": len(rb.b.series)})
+	}
+	return out
+}
+
 func TestVF_C10(t *testing.T) {
 	r := vfkit.Start(t, "C10")
 	defer r.Finish()
@@ -295,10 +384,12 @@ func TestVF_C10(t *testing.T) {
 		"x selector sessions: one generated selector set (1..4 matchers of 20 shapes; 40% constrain several different labels (half of them with value-adding matchers only, the shape that makes the store expand postings lazily), 30% put 2..3 matchers on one label, rest free incl. external and absent names) is issued with a sequence of 1..4 closed ranges " +
 		"(patterns: single, narrow-then-wide, wide-then-narrow, disjoint windows, nested growing, free ranges at chunk/block edges; SkipChunks 15%), so caches filled under one range are read under another; 20% of the requests re-issue an earlier request verbatim. " +
 		"Every request is issued twice in a row on every store with freshly drawn lazy-postings settings and series batch size (1,3,10000). " +
+		"Every second fixture has a history: 4..5 consecutive raw blocks of one block set; twice, between selector sessions, 1..2 blocks (oldest / middle / newest) are deleted from the bucket or marked for deletion " +
+		"(the stores' meta fetchers ignore marked blocks, delay 0), at the second step sometimes a new youngest block is uploaded, then every store runs SyncBlocks and the sessions go on against the blocks present at that moment. " +
 		"oracle: flattened answer == union over blocks of Prometheus NewBlockChunkQuerier(block,mint,maxt).Select(DisableTrimming) with external labels applied, chunks compared as sets of (mint,maxt,encoding,bytes). " +
 		"evaluation = one store answer compared; distinct/non-trivial = (fixture, request) whose reference answer has at least one series")
 	nFix := r.N(8, 70)
-	nReq := r.N(36, 80)
+	nReq := r.N(32, 80)
 	r.Require(int64(nFix*nReq*4), nFix*nReq/8)
 	r.Assume("request ranges have mint <= maxt; blocks have no tombstones; block meta min/max time bound the samples (as the compactor writes them)")
 	r.Assume("series that become label-identical after external labels override stored ones are one series whose chunks are the union (identical chunks once), as the store's documented merge does")
@@ -310,7 +401,14 @@ func TestVF_C10(t *testing.T) {
 
 func vfc10RunFixture(t *testing.T, r *vfkit.Run, c int, rng *rand.Rand, nReq int, dir string) {
 	defer func() { _ = os.RemoveAll(dir) }()
-	fx := vfc07NewFixture(t, rng, dir, vfc07Opts{maxBlocks: 3, maxSeries: 150, slots: 36, hist: true, collide: rng.Intn(3) == 0})
+	// every second fixture has a history: >= 4 consecutive blocks of one block set, and between selector
+	// sessions blocks disappear from / appear in the bucket and the stores re-sync
+	withHistory := c%2 == 1
+	opts := vfc07Opts{maxBlocks: 3, maxSeries: 150, slots: 36, hist: true, collide: rng.Intn(3) == 0}
+	if withHistory {
+		opts.chain, opts.maxSeries, opts.slots = 4, 60, 24
+	}
+	fx := vfc07NewFixture(t, rng, dir, opts)
 	var refs []vfc10RefBlock
 	for _, b := range fx.blocks {
 		blk, err := tsdb.OpenBlock(promslog.NewNopLogger(), b.dir, nil, nil)
@@ -329,6 +427,9 @@ func vfc10RunFixture(t *testing.T, r *vfkit.Run, c int, rng *rand.Rand, nReq int
 		{cache: "large", sampling: []int{1, 2}[rng.Intn(2)], estSeries: []uint64{8, 16, 48}[rng.Intn(3)], estChunk: []uint64{40, 200, 1000}[rng.Intn(3)], pooled: true, gap: []uint64{1, 64, 0}[rng.Intn(3)], lazyReader: rng.Intn(2) == 0},
 		{cache: "tiny", sampling: []int{1, 2, 32}[rng.Intn(3)], estSeries: []uint64{16, 24, 100}[rng.Intn(3)], estChunk: []uint64{0, 64, 300}[rng.Intn(3)], gap: []uint64{0, 16, 4096}[rng.Intn(3)]},
 	}
+	for i := range cfgs {
+		cfgs[i].delMarks = withHistory
+	}
 	var stores []*BucketStore
 	for _, cfg := range cfgs {
 		st := vfc07NewBucketStore(t, fx, cfg)
@@ -338,9 +439,23 @@ func vfc10RunFixture(t *testing.T, r *vfkit.Run, c int, rng *rand.Rand, nReq int
 	r.Sample(map[string]any{"case": c, "blocks": vfc07DescribeFixture(fx), "stored_names": fx.u.names, "stores": []string{cfgs[0].String(), cfgs[1].String(), cfgs[2].String()}})
 
 	var history, pending []vfc10Req
+	mutations, lastMutation := 0, ""
 	for q := 0; q < nReq; q++ {
 		var rq vfc10Req
 		replay := false
+		if withHistory && len(pending) == 0 && mutations < 2 && q >= (mutations+1)*nReq/3 {
+			// fixture history step between two selector sessions; earlier requests are not re-issued
+			// afterwards because their references describe the previous set of blocks
+			var what string
+			refs, what = vfc10Mutate(t, rng, fx, refs, stores, mutations == 1, mutations)
+			mutations++
+			history = history[:0]
+			lastMutation = what
+			r.Count("fixture_history_steps", 1)
+			for _, w := range strings.Split(what, "+") {
+				r.Count("fixture_history_"+w, 1)
+			}
+		}
 		switch {
 		case len(pending) > 0:
 			rq, pending = pending[0], pending[1:]
@@ -396,6 +511,9 @@ func vfc10RunFixture(t *testing.T, r *vfkit.Run, c int, rng *rand.Rand, nReq int
 				if replay || rep > 0 {
 					r.Count("answers_on_warm_history", 1)
 				}
+				if mutations > 0 {
+					r.Count("answers_after_fixture_history_step", 1)
+				}
 				if rq.later && !replay {
 					r.Count("answers_after_same_selectors_with_other_range", 1)
 					if lazyHit {
@@ -405,7 +523,7 @@ func vfc10RunFixture(t *testing.T, r *vfkit.Run, c int, rng *rand.Rand, nReq int
 				witness := func(extra map[string]any) map[string]any {
 					m := map[string]any{"case": c, "matchers": vfc07MatchersString(rq.ms), "mint": rq.mint, "maxt": rq.maxt, "skip_chunks": rq.skip,
 						"store": cfgs[si].String(), "request_time_config": tune, "repeat": rep, "reissued_later": replay, "selector_session": rq.session, "lazy_postings_used": lazyHit,
-						"blocks": vfc07DescribeFixture(fx), "reference_series": len(rq.want)}
+						"blocks": vfc07DescribeFixture(fx), "reference_series": len(rq.want), "blocks_present_now": vfc10DescribeRefs(refs), "fixture_history_steps": mutations, "last_history_step": lastMutation}
 					for k, v := range extra {
 						m[k] = v
 					}
